@@ -451,22 +451,23 @@ Definition invocation := (option string * option string * string)%type.   (* loa
 Definition run_marker (s : status) : event :=
   match s with SRaised n m => ["run-err"; n; m] | _ => ["run-ok"] end.
 
-Fixpoint run_roots (w : world) (st : state) (invs : list invocation) : state * list event * status :=
+Fixpoint run_roots (fuel : nat) (w : world) (st : state) (invs : list invocation)
+  : state * list event * status :=
   match invs with
   | [] => (st, [], SDone)
   | (l, pd, n) :: rest =>
-      let '(st1, ev1, s1) := run_pipeline FUEL w st l pd n PNone in
+      let '(st1, ev1, s1) := run_pipeline fuel w st l pd n PNone in
       match rest, s1 with
       | [], _ => (st1, ev1, s1)
       | _, SUnsup => (st1, ev1, SUnsup)
-      | _, _ => let '(st2, ev2, s2) := run_roots w st1 rest in
+      | _, _ => let '(st2, ev2, s2) := run_roots fuel w st1 rest in
                 (st2, (ev1 ++ run_marker s1 :: ev2)%list, s2)
       end
   end.
 
 Definition run_case_pre (w : world) (repo : string) (pre : list string) (invs : list invocation)
   : res (list event) :=
-  let '(st, ev, s) := run_roots w (state_pre pre) invs in
+  let '(st, ev, s) := run_roots FUEL w (state_pre pre) invs in
   let tail := ["syspath" :: skipn (length pre) (syspath (s_sys st)); env_event w repo] in
   match s with
   | SUnsup => Unsup
